@@ -415,7 +415,7 @@ func judgeC09(name string, sc *Script, r *RunOut, o *Obs) {
 		if j >= len(outs) || !outs[j].Done {
 			break
 		}
-		if !op.Observe {
+		if !op.Observe || op.Consume != -1 {
 			if op.Fn >= 0 && op.Fn < len(texts) {
 				lastDerive = fmt.Sprintf("op %d: %s %s -> h%d (%s)", j, texts[op.Fn], argString(op.Args), op.Store-1, outs[j].class())
 			}
